@@ -20,6 +20,9 @@ use tracing::{debug, instrument, warn};
 
 use crate::rpc::{ClnRpc, RpcError};
 
+/// Time between attempts to obtain the state of a payment from the node.
+const WAIT_PAYMENT_RETRY_INTERVAL: Duration = Duration::from_secs(1);
+
 /// The `PaymentProvider` trait exposes a `pay` method.
 #[cfg_attr(test, automock)]
 #[async_trait]
@@ -55,6 +58,27 @@ where
             retry_for: retryfor,
             rpc,
             xpay,
+        }
+    }
+}
+
+impl<R> PayPaymentProvider<R>
+where
+    R: ClnRpc + Send + Sync,
+{
+    /// Waits for the payment like `wait_payment`, but keeps trying when the
+    /// state of the payment cannot be obtained from the node. To be used after
+    /// `pay` was invoked: parts of the payment may be in flight, so nothing
+    /// can be said about the outcome of the payment until the node tells.
+    async fn wait_payment_until_known(&self, payment_hash: sha256::Hash) -> Option<Vec<u8>> {
+        loop {
+            match self.wait_payment(payment_hash).await {
+                Ok(maybe_preimage) => return maybe_preimage,
+                Err(e) => {
+                    warn!("failed to wait for payment, trying again: {:?}", e);
+                    tokio::time::sleep(WAIT_PAYMENT_RETRY_INTERVAL).await;
+                }
+            }
         }
     }
 }
@@ -112,7 +136,7 @@ where
             Ok(resp) => resp,
             Err(e) => {
                 debug!("pay returned error {:?}", e);
-                return match self.wait_payment(req.payment_hash).await? {
+                return match self.wait_payment_until_known(req.payment_hash).await {
                     Some(preimage) => Ok(preimage),
                     None => Err(anyhow!(e.to_string())),
                 };
@@ -127,7 +151,7 @@ where
             PayStatus::COMPLETE => return Ok(resp.payment_preimage.to_vec()),
             PayStatus::PENDING => {
                 warn!("payment is pending after pay returned");
-                return match self.wait_payment(req.payment_hash).await? {
+                return match self.wait_payment_until_known(req.payment_hash).await {
                     Some(preimage) => Ok(preimage),
                     None => Err(anyhow!("payment failed")),
                 };
@@ -135,7 +159,7 @@ where
             PayStatus::FAILED => {
                 if let Some(warning) = resp.warning_partial_completion {
                     warn!("pay returned partial completion: {}", warning);
-                    return match self.wait_payment(req.payment_hash).await? {
+                    return match self.wait_payment_until_known(req.payment_hash).await {
                         Some(preimage) => Ok(preimage),
                         None => Err(anyhow!("payment failed")),
                     };
